@@ -39,7 +39,10 @@ import (
 
 // one stage of the item chain. kind: 'T' transparent, 'M' masks a failure of the items in set (answers success
 // instead), 'R' refuses the items in set without calling next (returns (nil, error)), 'E' lets the items in set
-// through and then reports an error together with the response item.
+// through and then reports an error together with the response item, 'P' panics on the items in set without
+// calling next, 'Q' lets them through and then panics. A panic unwinds through the stages around it (a masking
+// stage cannot mask it) up to the last-resort recovery of executeItemWithMiddleware, which must fail THIS item
+// only (echoing operation and id) and let the batch go on.
 type bmwStage struct {
 	kind byte
 	set  map[int]bool
@@ -72,7 +75,7 @@ func bmwRenderChain(c []bmwStage) string {
 func bmwParseChain(s string) ([]bmwStage, error) {
 	var out []bmwStage
 	for _, p := range strings.Split(s, ",") {
-		if p == "" || !strings.Contains("TMRE", p[:1]) {
+		if p == "" || !strings.Contains("TMREPQ", p[:1]) {
 			return nil, fmt.Errorf("bad stage %q", p)
 		}
 		st := bmwStage{kind: p[0], set: map[int]bool{}}
@@ -136,6 +139,12 @@ func bmwExecutor(r *bReq, chain []bmwStage, log *bmwLog) *kmipserver.BatchExecut
 			case st.kind == 'E' && st.set[i]:
 				resp, _ := next(ctx, bi)
 				return resp, kmipserver.Error{Reason: kmip.ResultReasonGeneralFailure, Message: "failed by middleware"}
+			case st.kind == 'P' && st.set[i]:
+				panic("scripted: batch item middleware panics")
+			case st.kind == 'Q' && st.set[i]:
+				_, _ = next(ctx, bi)
+				var m map[int]int
+				m[i] = k // runtime error after the rest of the chain ran
 			}
 			return next(ctx, bi)
 		})
@@ -156,29 +165,35 @@ func bmwPredict(r *bReq, chain []bmwStage) (failed []bool, calls []int, enter []
 			continue
 		}
 		processed[i] = true
-		var eval func(k int) bool // returns failed
-		eval = func(k int) bool {
+		var eval func(k int) (failed, unwinding bool) // unwinding: a panic is on its way out (nothing masks it)
+		eval = func(k int) (bool, bool) {
 			if k == len(chain) {
 				if r.reachesHandler(it) {
 					calls = append(calls, i)
+					return r.itemFails(it), r.poisonPanic(i)
 				}
-				return r.itemFails(it)
+				return r.itemFails(it), false
 			}
 			enter[k] = append(enter[k], i)
 			st := chain[k]
 			switch {
 			case st.kind == 'R' && st.set[i]:
-				return true
+				return true, false
+			case st.kind == 'P' && st.set[i]:
+				return true, true
 			case st.kind == 'M' && st.set[i]:
-				eval(k + 1)
-				return false
+				_, unw := eval(k + 1)
+				return unw, unw
 			case st.kind == 'E' && st.set[i]:
+				_, unw := eval(k + 1)
+				return true, unw
+			case st.kind == 'Q' && st.set[i]:
 				eval(k + 1)
-				return true
+				return true, true
 			}
 			return eval(k + 1)
 		}
-		failed[i] = eval(0)
+		failed[i], _ = eval(0)
 		if failed[i] && r.opt == uint32(kmip.BatchErrorContinuationOptionStop) {
 			stopped = true
 		}
@@ -188,6 +203,22 @@ func bmwPredict(r *bReq, chain []bmwStage) (failed []bool, calls []int, enter []
 
 func bmwCase(ctx *Ctx, r *bReq, chain []bmwStage, origin string) {
 	line := "batch.mw " + bmwRenderChain(chain) + " " + r.encode()
+	for i := range r.items {
+		if !r.accepted() || !r.poisonPanic(i) || !r.reachesHandler(&r.items[i]) {
+			continue
+		}
+		for _, st := range chain {
+			if st.kind == 'M' && st.set[i] {
+				// the model's item outcome alphabet does not tell a panic that escapes executeItem from one it
+				// recovers: checked by the impl-side prediction only
+				line = "#" + line
+				break
+			}
+		}
+		if line[0] == '#' {
+			break
+		}
+	}
 	impl := ""
 	ctx.current = line
 	viol := func(oracle, key, detail string) {
@@ -310,7 +341,7 @@ func bmwRender(resp *kmip.ResponseMessage, log *bmwLog) string {
 func bmwRandomChain(r *rng.R, n int) []bmwStage {
 	var chain []bmwStage
 	for k := 1 + r.Intn(3); k > 0; k-- {
-		st := bmwStage{kind: rng.Pick(r, []byte{'T', 'T', 'M', 'R', 'E'}), set: map[int]bool{}}
+		st := bmwStage{kind: rng.Pick(r, []byte{'T', 'T', 'M', 'M', 'R', 'E', 'P', 'Q'}), set: map[int]bool{}}
 		if st.kind != 'T' {
 			for i := 0; i < n; i++ {
 				if r.Chance(1, 3) {
@@ -339,9 +370,13 @@ func runBatchMw(ctx *Ctx) {
 				bmwCase(ctx, q, []bmwStage{{kind: 'T'}}, "exhaustive")
 				bmwCase(ctx, q, []bmwStage{{kind: 'T'}, {kind: 'T'}}, "exhaustive")
 				for pos := 0; pos < n; pos++ {
-					for _, k := range []byte{'M', 'R', 'E'} {
+					for _, k := range []byte{'M', 'R', 'E', 'P', 'Q'} {
 						bmwCase(ctx, q, []bmwStage{{kind: 'T'}, {kind: k, set: map[int]bool{pos: true}}}, "exhaustive")
 						bmwCase(ctx, q, []bmwStage{{kind: k, set: map[int]bool{pos: true}}, {kind: 'T'}}, "exhaustive")
+					}
+					// a masking stage around a panicking one: the panic is not maskable
+					for _, k := range []byte{'P', 'Q'} {
+						bmwCase(ctx, q, []bmwStage{{kind: 'M', set: map[int]bool{pos: true}}, {kind: k, set: map[int]bool{pos: true}}}, "exhaustive")
 					}
 				}
 			}
@@ -505,6 +540,10 @@ func runBatchEntryPoints(ctx *Ctx) {
 func replayBatchExtras(ctx *Ctx) {
 	for _, l := range ctx.Replay {
 		l = strings.TrimSpace(l)
+		l = strings.TrimPrefix(l, "#") // "#batch.mw …": impl-only variant of a batch.mw line
+		if strings.HasPrefix(l, "batch.http ") || strings.HasPrefix(l, "batch.nilreq ") {
+			l = "#" + l
+		}
 		switch {
 		case strings.HasPrefix(l, "batch.mw "):
 			f := strings.SplitN(strings.TrimPrefix(l, "batch.mw "), " ", 2)
